@@ -186,7 +186,10 @@ def run_ftp(url, script, mode='file', chooser=None, explore_events=False, horizo
                 obs['error'] = type(e).__name__
             except Exception as e:
                 obs['error'] = 'UNEXPECTED:%s:%s' % (type(e).__name__, str(e)[:80])
-            obs['body'] = out.getvalue().decode('latin-1')
+            try:
+                obs['body'] = out.getvalue().decode('latin-1')
+            except ValueError:
+                obs['body'] = None      # the listing parser's text wrapper closed it
         t = loop.create_task(task())
 
         def on_deliver(conn, data):
